@@ -46,7 +46,7 @@ func convertObjectToASTNode(obj object.Object) ast.Node {
 		t := token.Intern(token.INT, strconv.FormatInt(obj.Value, 10))
 		r := ast.IntegerLiteral{Val: obj.Value}
 		r.Token = t
-		return r
+		return &r // (a pointer, like the parser makes: the evaluator and the printer switch on *ast.IntegerLiteral)
 	case object.Boolean:
 		var t *token.Token
 		if obj.Value {
@@ -54,7 +54,7 @@ func convertObjectToASTNode(obj object.Object) ast.Node {
 		} else {
 			t = token.FALSET
 		}
-		return ast.Boolean{Base: ast.Base{Token: t}, Val: obj.Value}
+		return &ast.Boolean{Base: ast.Base{Token: t}, Val: obj.Value}
 	case object.Quote:
 		return obj.Node
 	default:
